@@ -210,44 +210,90 @@ func (h *WHist) invoke(c *WCall) {
 		ctx, cancel = context.WithTimeout(ctx, 300*time.Millisecond)
 		c.ctxErrWant = context.DeadlineExceeded
 	}
-	c.task = simrt.Me()
-	c.Inv, c.InvAt = e.Sim.NextEv(), e.Sim.Now()
+	c.begin(e)
 	func() {
 		defer func() {
 			if r := recover(); r != nil {
-				c.Panic = r
+				c.setPanic(r)
 			}
 		}()
 		switch c.Entry {
 		case EWrite1:
 			n, err := ch.Write1(buf)
-			c.N, c.Err = int64(n), err
+			c.setRes(int64(n), err)
 		case EWritev:
-			c.N, c.Err = ch.Writev(split(buf, c.Parts))
+			c.setRes(ch.Writev(split(buf, c.Parts)))
 		case ECtxWrite1:
 			n, err := ch.CtxWrite1(ctx, buf)
-			c.N, c.Err = int64(n), err
+			c.setRes(int64(n), err)
 		case ECtxWritev:
-			c.N, c.Err = ch.CtxWritev(ctx, split(buf, c.Parts))
+			c.setRes(ch.CtxWritev(ctx, split(buf, c.Parts)))
 		case EWriterWrite:
 			n, err := ch.Writer().Write(buf)
-			c.N, c.Err = int64(n), err
+			c.setRes(int64(n), err)
 		case EReadFrom:
-			c.N, c.Err = ch.ReadFrom(&plainReader{buf})
+			c.setRes(ch.ReadFrom(&plainReader{buf}))
 		case EChWrite:
-			c.Err = ch.Write(buf)
-			if c.Err == nil {
-				c.N = int64(len(buf))
+			err := ch.Write(buf)
+			if err == nil {
+				c.setRes(int64(len(buf)), nil)
+			} else {
+				c.setRes(0, err)
 			}
 		}
 	}()
-	c.Ret, c.RetAt = e.Sim.NextEv(), e.Sim.Now()
-	c.Returned = true
+	c.finish(e)
 	if cancel != nil {
 		cancel()
 	}
 	if h.Cfg.Poison {
 		poison(buf)
+	}
+}
+
+//go:norace
+func (c *WCall) begin(e *Env) {
+	c.task = simrt.Me()
+	c.Inv, c.InvAt = e.Sim.NextEv(), e.Sim.Now()
+}
+
+//go:norace
+func (c *WCall) setRes(n int64, err error) { c.N, c.Err = n, err }
+
+//go:norace
+func (c *WCall) setPanic(r interface{}) { c.Panic = r }
+
+//go:norace
+func (c *WCall) finish(e *Env) {
+	c.Ret, c.RetAt = e.Sim.NextEv(), e.Sim.Now()
+	c.Returned = true
+}
+
+//go:norace
+func (h *WHist) closeBegin(e *Env) {
+	h.CloseCalled = true
+	h.CloseInv, h.CloseInvAt = e.Sim.NextEv(), e.Sim.Now()
+}
+
+//go:norace
+func (h *WHist) closeEnd(e *Env) { h.CloseRet = e.Sim.NextEv() }
+
+//go:norace
+func decr(p *int) int { *p--; return *p }
+
+// observe is the per-step hook: which calls does the scheduler see blocked.
+//
+//go:norace
+func (h *WHist) observe() {
+	for _, c := range h.Calls {
+		if c.task != nil && !c.Returned && c.Inv > 0 {
+			if c.task.Blocked() && c.BlockedAt == 0 {
+				c.BlockedAt = c.task.BlockedSite()
+			}
+			if c.task.WaitingMutex() {
+				c.WaitedMutex = true
+			}
+		}
 	}
 }
 
@@ -291,8 +337,7 @@ func (e *Env) RunWriters(cfg WCfg) *WHist {
 	}
 
 	doClose := func() {
-		h.CloseCalled = true
-		h.CloseInv, h.CloseInvAt = e.Sim.NextEv(), e.Sim.Now()
+		h.closeBegin(e)
 		switch cfg.CloseHow {
 		case 1:
 			rig.Ch.Trigger(closeEvent{})
@@ -301,7 +346,7 @@ func (e *Env) RunWriters(cfg WCfg) *WHist {
 		default:
 			rig.Ch.Close(cfg.CloseErr)
 		}
-		h.CloseRet = e.Sim.NextEv()
+		h.closeEnd(e)
 		for _, c := range post {
 			c := c
 			e.Step()
@@ -318,8 +363,7 @@ func (e *Env) RunWriters(cfg WCfg) *WHist {
 					e.Step()
 					h.invoke(c)
 				}
-				remaining--
-				if remaining == 0 && cfg.CloseMode == 1 {
+				if decr(&remaining) == 0 && cfg.CloseMode == 1 {
 					for i := 0; i < cfg.Closers; i++ {
 						e.Go(fmt.Sprintf("closer%d", i), doClose)
 					}
@@ -361,18 +405,7 @@ func (e *Env) RunWriters(cfg WCfg) *WHist {
 		}
 	})
 	// observe calls that the scheduler sees blocked (C18)
-	e.Sim.OnStep = func() {
-		for _, c := range h.Calls {
-			if c.task != nil && !c.Returned && c.Inv > 0 {
-				if c.task.Blocked() && c.BlockedAt == 0 {
-					c.BlockedAt = c.task.BlockedSite()
-				}
-				if c.task.WaitingMutex() {
-					c.WaitedMutex = true
-				}
-			}
-		}
-	}
+	e.Sim.OnStep = h.observe
 	h.End = e.RunToEnd()
 	e.Sim.OnStep = nil
 	return h
